@@ -54,6 +54,20 @@ def check(ctx: Ctx) -> None:
                 txt = ast.unparse(v.args[0]).replace(" ", "")
                 ok = txt in ("self.num_running", "len(self._tasks_running)")
             rep.ob("R14.1", "stop_all() == stop(number of running tasks)", ok, node=r)
+    rep.rule("R14.2", "premise of 'reversed(running) is newest first': the running registry keeps creation order - entries are inserted only by _start_task "
+                      "(in id order) and the dict is never rebuilt, re-bound or re-ordered by anyone but the constructor")
+    n = 0
+    for e in ctx.effects(fields=["_tasks_running"], kinds=["insert", "assign", "aug", "reorder", "maybe-update"]):
+        if not e.path.endswith("._tasks_running"):
+            continue
+        n += 1
+        hosts = ctx.hosts(e.node.func)
+        if e.kind == "insert":
+            rep.ob("R14.2", "tasks are filed as running only by _start_task, i.e. in creation order", hosts <= {"_start_task"}, node=e.node, detail=f"on behalf of {sorted(hosts)}")
+        else:
+            rep.ob("R14.2", "the running registry is never rebuilt or re-bound after construction (its iteration order is the start order)", hosts <= {"__init__"}, node=e.node,
+                   detail=f"{e.kind} on behalf of {sorted(hosts)}")
+    rep.floor("R14.2", "inserts/bindings of the running registry", n, 2)
     K.r_two_phase(ctx, "R06.1")
     K.r_who_cancel(ctx, "R06.3")
     S.r_handoff(ctx, "R02.1")
